@@ -178,9 +178,13 @@ def run_real(rec, F, cnt, sig):
         # ---- reference by phase name
         mob0, phases0, f0 = fresh[ev['pt']]
         ref = ref_postprocess(ev['mode'], ev['args'], mob0, phases0, f0)
+        # a homogenized mobility is never negative (the -1 "undefined" marker must not leak out of the rules)
+        if np.any(val < 0):
+            F.add('C17.negative_mobility', f'evaluation {k}: {ev["rule"]} with {ev["mode"]}({ev["args"]}) at x={pt["x"]} T={pt["T"]} (stable phases {fresh[ev["pt"]][1]}) returned a negative mobility {val.tolist()}', mode=ev['mode'], region='single' if len(fresh[ev['pt']][1]) == 1 else 'two')
         if ref is not None:
             mobr, fr = ref
-            if np.all(mobr != -1) and np.sum(fr) > 0:
+            # with every fraction excluded the additive rules (upper Wiener, labyrinth) give exactly 0; the others divide by the fractions
+            if np.all(mobr != -1) and (np.sum(fr) > 0 or ev['rule'] in ('wiener upper', 'lab')):
                 with np.errstate(all='ignore'):
                     want = ref_rule(ev['rule'], mobr, fr, ev['lab'])
                 cnt['compared'] += 1
